@@ -29,7 +29,7 @@ def run(c, prefix):
         n = 400 if c.thorough else 45
         args = ["-n", n, "-out", trace]
         if c.thorough:
-            args += ["-pairs", 5, "-maxsegs", 8, "-maxcores", 10]
+            args += ["-pairs", 5, "-maxsegs", 8, "-maxcores", 10, "-duppairs", 4]
         c.run_driver(drv, args)
     r = c.validate("CombinatorTrace", "CombinatorTrace.cfg", trace, timeout=3000)
     drift = _tlcout.renorm(r)
